@@ -35,6 +35,7 @@ class TooManyPaths(Exception):
 class Walker:
     loop_bound = 1
     max_paths = 50000
+    track_blocks = False  # record the visited blocks of the outermost function in st.data['blocks']
 
     def __init__(self, fb):
         self.fb = fb
@@ -151,6 +152,9 @@ class Walker:
                     return  # loop bound reached: this unrolling is cut (other exits are explored)
                 visits = dict(visits)
                 visits[b] = c + 1
+                if self.track_blocks and st.depth == 0:
+                    st.data = copy.copy(st.data)
+                    st.data['blocks'] = st.data.get('blocks', frozenset()) | {b}
             el = blk.el
             i = start
             while i < len(el):
